@@ -3,7 +3,9 @@
    (canonical layout) and C03 (general layout). *)
 From Coq Require Import ZArith List Bool Lia.
 From Model Require Import Tree Text Lexer.
+From Gen Require UnicodeTables.
 From Proofs Require Import LexerProofs.
+From Proofs Require Ranges.
 Import ListNotations.
 Open Scope Z_scope.
 
@@ -200,4 +202,19 @@ Lemma lex_single c r res n : is_blank c = false -> lex_step true c r = (res, n, 
 Proof.
   intros Hb Hs. unfold lex. rewrite lex_with_at, lex_at_cons, Hb, Hs.
   destruct res; [|reflexivity|reflexivity]. rewrite lex_at_nil. reflexivity.
+Qed.
+
+(* the ASCII shortcuts of [is_word] / [is_dec] agree with the generated Unicode tables *)
+Definition ascii_agree (c : Z) : bool :=
+  Bool.eqb (in_ranges UnicodeTables.perl_word c) (is_digit c || is_alpha_us c)
+  && Bool.eqb (in_ranges UnicodeTables.perl_decimal c) (is_digit c).
+Lemma ascii_tables_agree : forall c, 0 <= c < 128 ->
+  in_ranges UnicodeTables.perl_word c = (is_digit c || is_alpha_us c) /\
+  in_ranges UnicodeTables.perl_decimal c = is_digit c.
+Proof.
+  intros c Hc.
+  assert (H : ascii_agree c = true).
+  { apply (Proofs.Ranges.forall_range' ascii_agree 0 128); [vm_compute; reflexivity|exact Hc]. }
+  unfold ascii_agree in H. apply andb_prop in H. destruct H as [H1 H2].
+  apply Bool.eqb_prop in H1. apply Bool.eqb_prop in H2. split; assumption.
 Qed.
